@@ -479,8 +479,8 @@ def run(ctx):
     pairs = [((3,), A7, ALLV, 7, 1), ((3,), A12, ALLV, 0, 1), ((4,), A12, UT, 0, 1),
              ((2, 2), A70, UT, 7, 1), ((2, 2), A1, ALLV, 0, 1), ((2, 2), A12, UT, 0, 0),
              ((2, 2, 1), A1, UT if q else ALLV, 0, 0)]
-    capped = [] if q else [((2, 2), A12, ("ut",), 0, 1, 60), ((2, 2, 1), A12, UT, 0, 0, 100),
-                           ((5,), A12, U, 0, 0, 70), ((2, 3), A1, U, 0, 0, 70), ((3, 2), A1, U, 0, 0, 100)]
+    capped = [] if q else [((2, 2), A12, ("ut",), 0, 1, 50), ((2, 2, 1), A12, UT, 0, 0, 90),
+                           ((5,), A12, U, 0, 0, 60), ((2, 3), A1, U, 0, 0, 60), ((3, 2), A1, U, 0, 0, 90)]
     neigh = (2, 2, 2, A1, U if q else UT)
     trip = (3, A1 if q else A12)
     ctx.bounds = {
